@@ -132,6 +132,9 @@ BackOK(f, x, back, zsignfree) ==
 WordsFinite(wf, ws) == \A i \in 1..Len(ws) : IsFinite(wf, ws[i])
 WordVals(wf, ws) == [i \in 1..Len(ws) |-> Val(wf, ws[i])]
 WordSum(wf, ws) == DSum(WordVals(wf, ws))
+\* the `base` convention of mpf2expansion(..., base=2^lb): the value of the list is  SUM_i  w_i / base^(i-1)   (lb = 0: plain sum)
+WordSumB(wf, ws, lb) == DSum([i \in 1..Len(ws) |-> DShl(Val(wf, ws[i]), -(lb * (i - 1)))])
+LbOf(r) == IF "lb" \in DOMAIN r THEN r.lb ELSE 0
 
 \* the value v can be written exactly as an unbounded RN-expansion in format wf
 NarrowOK(wf, v) == \/ DIsZero(v)
@@ -207,13 +210,14 @@ WordsFails(f, x, r) ==
       ELSE IF r.st = "back_skipped_empty" THEN
         \* L4: the empty list is zero; there is nothing to convert back
         If(~(ws = <<>> /\ IsZero(f, x)), Nm(t, "sum", c))
-      ELSE IF r.st # "ok" THEN {Nm(t, r.st, c)}
+      ELSE IF r.st \notin {"ok", "ok_fwd_only"} THEN {Nm(t, r.st, c)}
       ELSE IF fin THEN
         \* the ways back are judged only when the list itself is right (no cascades)
         IF ~WordsFinite(wf, ws) THEN {Nm(t, "sum", c)}
-        ELSE LET s == WordSum(wf, ws)
+        ELSE LET s == WordSumB(wf, ws, LbOf(r))
              IN  IF ~DEq(s, v) THEN
                    {Nm(t, IF IsTruncationOf(s, v) THEN "sum_truncated" ELSE "sum", c)}
+                 ELSE IF r.st = "ok_fwd_only" THEN {}          \* (no way back exists for the base convention)
                  ELSE (IF ~r.hasbm THEN {}
                        ELSE IF ~MpfIsNum(r.bm) THEN {Nm(t, "back_mpf", c)}
                        ELSE If(~DEq(MpfVal(r.bm), v), Nm(t, "back_mpf", c)))
